@@ -34,9 +34,12 @@ func openSess(c *hlib.Ctx, prop string) *sess {
 	b, err := BuildRunner(repo)
 	if err != nil {
 		// a repository whose diode sources cannot be instrumented/built: the correspondence cannot be established
+		// that obligation is broken; what is left is the black-box search for a failing input
 		fmt.Fprintln(os.Stderr, "diodeh: "+err.Error())
+		c.Res.Broken = append(c.Res.Broken, "the diode sources cannot be instrumented (schedule-level correspondence not established): "+err.Error())
+		blackBox(c, prop)
 		c.Finish()
-		os.Exit(3)
+		os.Exit(0)
 	}
 	s := &sess{c: c, b: b, prop: prop, exhaustive: true}
 	if c.Thorough() {
@@ -335,6 +338,7 @@ func RunC10(c *hlib.Ctx) {
 		s.ringRandom(50, 50, 4, 6, 4, 2)
 		s.writerRandom(24, 25, 3, 3, 3, true, 2)
 	}
+	blackBox(c, "C10")
 	s.finish(ruleCommon + "; C10 monitors: delivered subset of written with identical bytes, no duplicate, strictly increasing ring position, per-producer program order, deliveries only from the single poll goroutine and never nested, alerts positive and delivered+reported <= claimed, every unfinished producer enabled at every step and only add/load/cas/broadcast operations on the producer path, producers complete with the consumer never scheduled")
 }
 
@@ -358,7 +362,7 @@ func RunC11(c *hlib.Ctx) {
 		s.ringRandom(50, 50, 4, 6, 4, 2)
 		s.writerRandom(24, 25, 3, 3, 3, true, 2)
 	}
-	fatalPath(c)
+	blackBox(c, "C11")
 	s.finish(ruleCommon + "; Close after the last Write = the consumer runs TryNext until it fails (ring level) or Writer.Close with the closer gated on the last Write (writer level); C11 monitors at Close: delivered + reported >= returned, equality when no 'Diode set collision' was logged, nothing dropped when fewer than size positions were outstanding at every fetch-add, wrapped writer closed; failures classified structurally (abandoned position after a failed CAS at the final read index = diode-hole-at-close; lost message overwritten by a first-lap CAS of smaller seq = diode-firstlap-overwrite; anything else under its own key); plus Logger.Fatal through a diode.Writer in a re-executed process")
 }
 
@@ -396,7 +400,7 @@ func RunC12(c *hlib.Ctx) {
 	} else {
 		s.writerRandom(30, 30, 3, 3, 3, false, 2)
 	}
-	realPrimitives(c)
+	blackBox(c, "C12")
 	s.finish(ruleCommon + "; writer level = the real diode.Writer (NewWriter, Write, poll, Close) over scheduler-controlled Mutex/Cond/context/Sleep, ring large enough that no lapping occurs; after the explored prefix the runner (a) lets the consumer, the cancel goroutine and the Writes already in progress run until nothing moves, with no new Write and no Close (check point 'quiet'), then (b) completes fairly with Close (check point 'final'); C12 monitors: at 'quiet' every returned Write is delivered or reported (structure 'producer Broadcast woke nobody between the failed TryNext and the Wait, consumer parked, message at the read index' = waiter-lost-wakeup), at 'final' all threads finished and Close returned (stuck-state detector), plus the C10/C11 safety and accounting monitors; and a run of the uninstrumented Writer on the real runtime primitives")
 }
 
